@@ -161,7 +161,31 @@ def c16(prog, rep):
     rep.assumptions += ['round-trip equality for all byte strings is a value computation and is not decided']
 
 
+def c07(prog, rep):
+    from . import hasharr as HA
+    HA.rule_c07(prog, rep)
+    rep.floor('I1', 10)
+    rep.floor('I2', 100)
+    rep.floor('I3', 4)
+    rep.floor('I4', 5)
+    rep.floor('I5', 6)
+    rep.floor('I6', 2)
+    rep.explanation = (
+        'I1: the image record types (header, slot, and every record nested by value, incl. the anonymous union) have no pointer, '
+        'function-pointer or address-sized member - a type fact. I2: no pointer-to-integer conversion exists in qhasharr.c, no '
+        'pointer value is stored into an image field, and image fields are accessed in qhasharr.c only (who-may-access over all '
+        'units). I3: every write to the caller\'s region in the constructor is dominated by the memsize > 0 branch (attach is '
+        'write-free). I4: every memcpy/memset into an array member of a slot has a length whose upper bound (clamp domain: '
+        'constants, compiler-evaluated sizeof, `(a<K)?a:K`, `if (v>K) v=K` guards) is within the member\'s capacity, and the '
+        'length stored in the uint8_t datasize field is bounded by 255 - evaluated with the actual Q_HASHARR_* knob values. '
+        'I5: header counters are written only by put_data/remove_data/clear/constructor. I6: every copy_slot(d,s) is followed on '
+        'all paths by remove_slot(s) and the back-link repair. Not decided: well-formedness of every reachable image.')
+    rep.assumptions += ['slot indexes coming from stored link/hash fields and from callers are assumed in range (image invariant / API contract)',
+                        'sizeof values are taken from the compiler (clang -emit-llvm of a constant initialiser)']
+
+
 PROPS = {
+    'C07': dict(fn=c07, level='other'),
     'C16': dict(fn=c16, level='other'),
     'C11': dict(fn=c11, level='other'),
     'C12': dict(fn=c12, level='other'),
